@@ -26,7 +26,16 @@ def NoCycle (f : Forest N G) (u v : N) : Prop := v ∉ ancestors f f.parents.len
     overwriting an existing edge) and `remove_node` keep it well formed -/
 theorem C09_wf_preserved (f : Forest N G) (h : WF f) (u v : N) (g : G) :
     WF (Forest.empty : Forest N G) ∧ (NoCycle f u v → WF (addEdge f u v g)) ∧ WF (removeNode f u) := by
-  sorry
+  obtain ⟨h1, h2, h3, rank, h4⟩ := h
+  have hr : WFr f rank := ⟨h1, h2, h3, h4⟩
+  refine ⟨?_, fun hc => ?_, ?_⟩
+  · have := wfr_empty (N := N) (G := G)
+    exact ⟨this.1, this.2, this.3, fun _ => 0, this.4⟩
+  · have := wfr_addEdge hr u v g hc
+    exact ⟨this.1, this.2, this.3,
+      fun x => rank x + if (anc f x).contains v then rank u + 1 else 0, this.4⟩
+  · have := wfr_removeNode hr u
+    exact ⟨this.1, this.2, this.3, _, this.4⟩
 
 section group
 variable [Mul G] [One G] [Inv G] [LawfulGroup G]
@@ -40,17 +49,20 @@ def T (f : Forest N G) (a b : N) : G := (world f f.parents.length a)⁻¹ * worl
     different trees give an error, never a matrix -/
 theorem C09_get_spec (f : Forest N G) (h : WF f) (a b : N) :
     getRaw f a b = if rootOf f a = rootOf f b then some (T f a b) else none := by
-  sorry
+  obtain ⟨h1, h2, h3, rank, h4⟩ := h
+  exact getRaw_spec (rank := rank) ⟨h1, h2, h3, h4⟩ a b
 
 /-- world matrices are the products of edges from the root: `world(v) = world(parent v) · E(parent v, v)` -/
 theorem C09_world_step (f : Forest N G) (h : WF f) (u v : N) (g : G) (he : ((u, v), g) ∈ f.edges) :
     world f f.parents.length v = world f f.parents.length u * g := by
-  sorry
+  obtain ⟨h1, h2, h3, rank, h4⟩ := h
+  exact world_edge (rank := rank) ⟨h1, h2, h3, h4⟩ he
 
 /-- consequences: identity on the diagonal, composition, inverse -/
 theorem C09_laws (f : Forest N G) (a b c : N) :
     T f a a = 1 ∧ T f a c = T f a b * T f b c ∧ T f a b = (T f b a)⁻¹ := by
-  sorry
+  unfold T
+  exact g_T_laws _ _ _
 
 /-- a changed edge is visible immediately: right after `update(v, u, g)` the transform `u → v` is `g`,
     whatever was stored or queried before -/
@@ -58,12 +70,18 @@ theorem C09_update_visible (f : Forest N G) (h : WF f) (u v : N) (g : G) (hne : 
     (hc : NoCycle f u v) : getRaw (addEdge f u v g) u v = some g ∧
       world (addEdge f u v g) (addEdge f u v g).parents.length v
         = world (addEdge f u v g) (addEdge f u v g).parents.length u * g := by
-  sorry
+  obtain ⟨h1, h2, h3, rank, h4⟩ := h
+  refine ⟨getRaw_addEdge g hne, ?_⟩
+  apply world_edge (wfr_addEdge (rank := rank) ⟨h1, h2, h3, h4⟩ u v g hc)
+  rw [addEdge_eq]
+  exact List.mem_cons_self ..
 
 /-- removing a node disconnects it: no transform to any other frame remains -/
 theorem C09_removed_disconnected (f : Forest N G) (h : WF f) (u w : N) (hne : u ≠ w) :
     getRaw (removeNode f u) u w = none ∨ ¬ hasNode f u = true := by
-  sorry
+  by_cases hn : hasNode f u = true
+  · exact Or.inl (getRaw_removeNode hne hn)
+  · exact Or.inr hn
 
 variable [DecidableEq G]
 
